@@ -214,7 +214,7 @@ func ruleDimensionCaps(c *core.Ctx) {
 		nr := callVerticesSuffix(g, "ccittfax.NewReader")
 		if len(nr) != 1 {
 			o.Count(1)
-			o.Fail("expected one ccittfax.NewReader call")
+			o.Unrec("expected one ccittfax.NewReader call")
 			return
 		}
 		o.At(fn.Site(nr[0].Call, "reader built"))
@@ -347,7 +347,7 @@ func ruleChainCap(c *core.Ctx) {
 			o.At(fn.Site(cv.Call, "per-filter construction"))
 			o.Require(g.EdgeDominates(cv.V, core.EdgeRef{From: cap, Label: core.EdgeFalse}), "filters of an array are built without passing the length cap")
 		}
-		o.Require(n == 1, "expected one MakeFilter call in the array loop, found %d", n)
+		o.Shape(n == 1, "expected one MakeFilter call in the array loop, found %d", n)
 		_ = info
 	})
 }
@@ -440,7 +440,7 @@ func ruleCloseForwarding(c *core.Ctx) {
 	}
 	c.Check(rule, "wrappers/census", "reader wrappers with an own Close method were found", func(o *core.Ob) {
 		o.Count(n)
-		o.Require(n >= 2, "only %d wrappers found", n)
+		o.Shape(n >= 2, "only %d wrappers found", n)
 	})
 	c.Check(rule, "pdf/internal/filter/dct.Decode", "the DCT decoder hands out the pipe reader itself, so Close on it unblocks the producer, and the producer closes the pipe writer on every path", func(o *core.Ob) {
 		fn := c.Prog.Func("pdf/internal/filter/dct", "Decode")
@@ -810,7 +810,7 @@ func ruleLZWPrefixOrder(c *core.Ctx) {
 			}
 		}
 		o.Fact("%d decrements of hi, %d resets of last, %d other assignments, %d reads", len(decs), len(resets), len(otherSets), len(reads))
-		o.Require(len(reads) >= 3, "uses of last not found")
+		o.Shape(len(reads) >= 3, "uses of last not found")
 		if len(decs) == 0 {
 			// nothing to protect; but then hi must not be capped some other way
 			o.Count(1)
@@ -1041,7 +1041,7 @@ func ruleDCTPlaneCharge(c *core.Ctx) {
 				}
 				return true
 			})
-			o.Require(n >= 3, "%s: expected at least three plane terms, found %d", fn.Key, n)
+			o.Shape(n >= 3, "%s: expected at least three plane terms, found %d", fn.Key, n)
 		}
 	})
 }
@@ -1122,7 +1122,7 @@ func ruleJPEGHeaderValidation(c *core.Ctx) {
 		got := collect(fn.Decl, c.Prog.Src)
 		o.At(fn.Site(fn.Decl, ""))
 		o.Fact("%d checks in the reference, %d in the fork", len(want), len(got))
-		o.Require(len(want) >= 8, "only %d checks found in the reference", len(want))
+		o.Shape(len(want) >= 8, "only %d checks found in the reference", len(want))
 		var missing []string
 		for k := range want {
 			o.Count(1)
